@@ -678,7 +678,15 @@ func (st *renderStyle) render(c *Cfg) string {
 				related = append(related, r)
 			}
 		}
+		// the two members of a class may come in either order
+		permitsFirst := len(related) > 0 && len(permits) > 0 && st.coin("permits-before-related", 0.25)
+		outer := &sb
+		var relatedBlock strings.Builder
 		if len(related) > 0 {
+			sb := outer
+			if permitsFirst {
+				sb = &relatedBlock
+			}
 			sb.WriteString("  related: {\n")
 			for _, r := range related {
 				ty, generic := st.types(r.Types)
@@ -725,6 +733,9 @@ func (st *renderStyle) render(c *Cfg) string {
 				sb.WriteString(";")
 			}
 			sb.WriteString("\n")
+		}
+		if permitsFirst {
+			sb.WriteString(relatedBlock.String())
 		}
 		sb.WriteString("}\n")
 	}
